@@ -224,6 +224,10 @@ func c22() int {
 					want := cur.get(acc, asset)
 					if got.Cmp(want) != 0 {
 						sig := "C22:tracked-balance-mismatch"
+						if !res.Queried[acc+"\x00"+asset] {
+							// an entry of Machine.Balances the machine never fetched from the store
+							sig += ":pair-never-fetched"
+						}
 						if l.hasSave {
 							sig += ":with-save"
 						}
